@@ -1316,6 +1316,11 @@ class ClientObservation:
         can only be called once."""
 
         if self.errbacks is None:
+            if getattr(self, "_cancellation_reason", None) is None:
+                # It was the application that cancelled the observation
+                # (through cancel(), not a previous error): there is nobody
+                # left to report to, and nothing wrong with the caller.
+                return
             raise RuntimeError(
                 "Error raised in an already cancelled ClientObservation"
             ) from exception
